@@ -185,6 +185,9 @@ def gen_bank_files(rng):
                 e["primary"] = rng.random() < 0.5
             entries.append(e)
         name = f"{li}banks" + (".v2.json" if v2 else ".json")
+        if rng.random() < 0.3:
+            # extra dotted segments in the name: "xbanks.local.v2.json" is still a v2 file, "xbanks.v2.old.json" is not
+            name = f"{li}banks.local" + (".v2.json" if v2 else ".json")
         if v2 and rng.random() < 0.3:
             # the list of codes stored under the very name it is expanded into
             for e in entries:
